@@ -14,7 +14,9 @@ package pki
 // c16_ext_test.go adds to the same machine: delta CRLs (enable_delta, crl/rotate-delta, periodic delta rebuild,
 // issuer/<ref>/crl/delta, cert/delta-crl), revoke-with-key (own key / other key), certificates that no issuer of
 // the mount signed, unstored certificates of a deleted issuer, a second issuer with the key and subject of i0,
-// revocation of already expired certificates, tidy variants and auto-tidy.
+// revocation of already expired certificates, tidy variants and auto-tidy, revocation through the lease machinery
+// (role with generate_lease, RevokeOperation with the secret, optionally followed at once by a restart), and a
+// revoked cross-signed certificate whose serial number is that of a root imported as an issuer later.
 
 import (
 	"bytes"
@@ -67,6 +69,9 @@ type c16Cert struct {
 	viaKey         bool   // revoked through revoke-with-key
 	lostToMixed    bool   // left off a CRL built while one of two equivalent issuers lacked crl-signing, not seen listed since
 	expiredAtIssue bool
+	secret         *logical.Secret // issued through a role with generate_lease: the secret of the issue response
+	leasePath      string          // the request path that created the secret
+	cross          *c16Cross       // a self-signed root of another mount, cross-signed by an issuer of this mount (same serial as that root)
 }
 
 func (c *c16Cert) alive(now time.Time) bool { return now.Before(c.cert.NotAfter.Add(-c16ExpiryMargin)) }
@@ -196,6 +201,7 @@ func c16SetupOn(rt *rapid.T, rec *verifx.Recorder, nIssuers int, autoRebuild boo
 		{"ns", map[string]any{"allow_any_name": true, "enforce_hostnames": false, "key_type": "ec", "ttl": "1h", "no_store": true}},
 		{"short", map[string]any{"allow_any_name": true, "enforce_hostnames": false, "key_type": "ec", "ttl": "8s"}},
 		{"old", map[string]any{"allow_any_name": true, "enforce_hostnames": false, "key_type": "ec", "ttl": "1h", "not_before_duration": "3h"}},
+		{"lease", map[string]any{"allow_any_name": true, "enforce_hostnames": false, "key_type": "ec", "ttl": "1h", "generate_lease": true}},
 	} {
 		s.mustWrite("role "+r.name, "roles/"+r.name, r.data)
 	}
@@ -456,7 +462,8 @@ func (s *c16Sys) check() {
 
 func (s *c16Sys) issue(role string) {
 	issuer := rapid.SampledFrom(s.issuable()).Draw(s.rt, "issuer")
-	resp, err := s.write("issuer/"+issuer+"/issue/"+role, map[string]any{"common_name": fmt.Sprintf("c%d.example.com", len(s.certs))})
+	path := "issuer/" + issuer + "/issue/" + role
+	resp, err := s.write(path, map[string]any{"common_name": fmt.Sprintf("c%d.example.com", len(s.certs))})
 	if err != nil {
 		s.rt.Fatalf("harness: issue: %v", err)
 	}
@@ -466,6 +473,13 @@ func (s *c16Sys) issue(role string) {
 	}
 	cc := &c16Cert{serial: vxStr(resp.Data, "serial_number"), cert: c, issuer: issuer, noStore: role == "ns", stored: role != "ns", short: role == "short", issuedAt: s.step,
 		keyPEM: vxStr(resp.Data, "private_key")}
+	if role == "lease" {
+		if resp.Secret == nil || resp.Secret.InternalData["serial_number"] == nil {
+			s.rt.Fatalf("harness: the role with generate_lease returned no secret: %+v", resp.Secret)
+		}
+		cc.secret, cc.leasePath = resp.Secret, path
+		s.ext().nLeaseIssued++
+	}
 	s.certs = append(s.certs, cc)
 	s.bySerial[c.SerialNumber.String()] = cc
 	s.logf("issue %s by %s role=%s", cc.serial, issuer, role)
@@ -543,6 +557,14 @@ func (s *c16Sys) actRevoke(again bool) {
 	ok, resp, err := s.revokeCall(c, byCert)
 	s.logf("revoke %s (issuer %s) byCert=%v again=%v -> ok=%v err=%v", c.serial, c.issuer, byCert, again, ok, err)
 	if err != nil {
+		if n := s.serialIsIssuer(c); n != "" && again {
+			// revokeCert refuses every serial number that an issuer of the mount has ("adding issuer to its own CRL is
+			// not allowed"), also for another certificate whose revocation it accepted before that issuer arrived.
+			// The certificate stays revoked (check() goes on demanding it everywhere): counted, not a violation.
+			s.ext().nCrossRevokeAgainRefused++
+			s.observe("revoke-again-refused-serial-of-later-issuer", "revoking %s (issuer %s) again is refused since issuer %s with the same serial number was imported: %v", c.serial, c.issuer, n, err)
+			return
+		}
 		s.violation("revoke-failed-without-fault", "revoke of %s failed although no fault was injected: %v", c.serial, err)
 		return
 	}
@@ -1025,38 +1047,45 @@ func c16Run(t *testing.T, rec *verifx.Recorder) {
 			return func(*rapid.T) { s.step++; f() }
 		}
 		actions := map[string]func(*rapid.T){
-			"":                 func(*rapid.T) { s.check() },
-			"a-issue":          step(func() { s.issue("r") }),
-			"a-issue2":         step(func() { s.issue("r") }),
-			"b-revoke":         step(func() { s.actRevoke(false) }),
-			"b-revoke2":        step(func() { s.actRevoke(false) }),
-			"c-revoke-fault":   step(s.actFaultRevoke),
-			"c-revoke-fault2":  step(s.actFaultRevoke),
-			"d-rotate":         step(func() { s.actRotate(false) }),
-			"e-issue-nostore":  step(func() { s.issue("ns") }),
-			"f-revoke-again":   step(func() { s.actRevoke(true) }),
-			"g-restart":        step(func() { s.restart("requested") }),
-			"h-rotate-fault":   step(func() { s.actRotate(true) }),
-			"i-config-crl":     step(s.actConfig),
-			"i-config-refused": step(s.actConfigRefused),
-			"j-tidy":           step(s.actTidy),
-			"k-default-issuer": step(s.actDefault),
-			"l-periodic":       step(s.actPeriodic),
-			"d-delete-issuer":  step(s.actDeleteIssuer),
-			"d-reimport":       step(s.actReimportIssuer),
-			"d-reimport2":      step(s.actReimportIssuer),
-			"o-config-delta":   step(s.actConfigDelta),
-			"o-rotate-delta":   step(func() { s.actRotateDelta(false) }),
-			"o-rotate-delta-f": step(func() { s.actRotateDelta(true) }),
-			"o-periodic-delta": step(s.actPeriodicElapsed),
-			"p-revoke-key":     step(s.actRevokeWithKey),
-			"p-revoke-foreign": step(s.actRevokeForeign),
-			"p-revoke-orphan":  step(s.actRevokeOrphan),
-			"q-revoke-expired": step(s.actRevokeExpired),
-			"r-tidy-ext":       step(s.actTidyExt),
-			"r-auto-tidy":      step(s.actAutoTidy),
-			"s-issuer-usage":   step(s.actIssuerUsage),
-			"s-issuer-usage2":  step(s.actIssuerUsage),
+			"":                            func(*rapid.T) { s.check() },
+			"a-issue":                     step(func() { s.issue("r") }),
+			"a-issue2":                    step(func() { s.issue("r") }),
+			"b-revoke":                    step(func() { s.actRevoke(false) }),
+			"b-revoke2":                   step(func() { s.actRevoke(false) }),
+			"c-revoke-fault":              step(s.actFaultRevoke),
+			"c-revoke-fault2":             step(s.actFaultRevoke),
+			"d-rotate":                    step(func() { s.actRotate(false) }),
+			"e-issue-nostore":             step(func() { s.issue("ns") }),
+			"f-revoke-again":              step(func() { s.actRevoke(true) }),
+			"g-restart":                   step(func() { s.restart("requested") }),
+			"h-rotate-fault":              step(func() { s.actRotate(true) }),
+			"i-config-crl":                step(s.actConfig),
+			"i-config-refused":            step(s.actConfigRefused),
+			"j-tidy":                      step(s.actTidy),
+			"k-default-issuer":            step(s.actDefault),
+			"l-periodic":                  step(s.actPeriodic),
+			"d-delete-issuer":             step(s.actDeleteIssuer),
+			"d-reimport":                  step(s.actReimportIssuer),
+			"d-reimport2":                 step(s.actReimportIssuer),
+			"o-config-delta":              step(s.actConfigDelta),
+			"o-rotate-delta":              step(func() { s.actRotateDelta(false) }),
+			"o-rotate-delta-f":            step(func() { s.actRotateDelta(true) }),
+			"o-periodic-delta":            step(s.actPeriodicElapsed),
+			"p-revoke-key":                step(s.actRevokeWithKey),
+			"p-revoke-foreign":            step(s.actRevokeForeign),
+			"p-revoke-orphan":             step(s.actRevokeOrphan),
+			"q-revoke-expired":            step(s.actRevokeExpired),
+			"r-tidy-ext":                  step(s.actTidyExt),
+			"r-auto-tidy":                 step(s.actAutoTidy),
+			"s-issuer-usage":              step(s.actIssuerUsage),
+			"s-issuer-usage2":             step(s.actIssuerUsage),
+			"t-issue-lease":               step(func() { s.issue("lease") }),
+			"t-lease-revoke":              step(s.actLeaseRevoke),
+			"t-lease-revoke-then-restart": step(s.actLeaseRevokeRestart),
+			"u-cross-revoke":              step(s.actCrossRevoke),
+			"u-cross-import":              step(s.actCrossImport),
+			"u-cross-import2":             step(s.actCrossImport),
+			"u-cross-revoke-then-import":  step(s.actCrossRevokeImport),
 			"m-issue-short": step(func() {
 				if !slow {
 					rt.Skip("not a slow case")
@@ -1103,7 +1132,7 @@ func c16Shape(h []string) []string {
 }
 
 func TestVerif_C16_History(t *testing.T) {
-	rec := verifx.NewRecorder("C16", "history", "rapid state machine over one mount with 1-3 EC issuers: issue (stored / no_store / short-lived), revoke by serial or certificate, revoke again, crl/rotate, tidy, default-issuer change, config/crl (auto_rebuild, disable, expiry, delta, grace period, delta interval), periodic tick (also with the delta interval / auto-tidy interval elapsed), restart on the same storage, storage faults (one failing operation or crash-from-k + restart) inside revoke, crl/rotate and crl/rotate-delta followed by retries, revoke-with-key (own / other key), revoke of foreign, orphaned and already expired certificates, an optional second issuer with the key and subject of i0, tidy variants and auto-tidy; after every action cert/<serial>, OCSP and every issuer's complete and delta CRL are compared with the model; non-trivial = >= 2 revoked serials on >= 2 issuers, or a fault between the revocation record and the CRL write, or a revocation carried by a delta CRL only, or a revoke-with-key, or a tidy while unexpired revoked certificates exist, or a revocation under twin issuers")
+	rec := verifx.NewRecorder("C16", "history", "rapid state machine over one mount with 1-3 EC issuers: issue (stored / no_store / short-lived), revoke by serial or certificate, revoke again, crl/rotate, tidy, default-issuer change, config/crl (auto_rebuild, disable, expiry, delta, grace period, delta interval), periodic tick (also with the delta interval / auto-tidy interval elapsed), restart on the same storage, storage faults (one failing operation or crash-from-k + restart) inside revoke, crl/rotate and crl/rotate-delta followed by retries, revoke-with-key (own / other key), revoke of foreign, orphaned and already expired certificates, an optional second issuer with the key and subject of i0, tidy variants and auto-tidy, certificates issued through a role with generate_lease and revoked the way the expiration manager does (RevokeOperation carrying the secret; t-lease-revoke, and t-lease-revoke-then-restart = the backend is re-created on the same storage before any CRL is read), a root generated on another mount, cross-signed here with sign-self-issued (same serial number as the root) and revoked by presenting it (u-cross-revoke), that root imported later with its key as an additional issuer through issuers/import/bundle or config/ca (u-cross-import, u-cross-revoke-then-import), after which it issues, serves CRLs, can become default, be deleted and re-imported like any other issuer; after every action cert/<serial>, OCSP and every issuer's complete and delta CRL are compared with the model; non-trivial = >= 2 revoked serials on >= 2 issuers, or a fault between the revocation record and the CRL write, or a revocation carried by a delta CRL only, or a revoke-with-key, or a tidy while unexpired revoked certificates exist, or a revocation under twin issuers, or a lease revocation, or an issuer imported whose serial number is that of a revoked unexpired certificate")
 	defer rec.Flush()
 	c16Run(t, rec)
 }
